@@ -172,8 +172,11 @@ RTRes(st, ranks) == [nodes |-> st.nodes, ranks |-> ranks, panic |-> st.panic]
 
 \* swap_random_leaves with the random choice (l1, l2) = (leaves[i1], leaves[i2]), i1 # i2:
 \* clears every edge on the path l1 .. l2, then swap_subtrees((p1, l1), (p2, l2))
+\* With exactly two leaves (two-vertex graph) each leaf is the other's parent and swap_subtrees would
+\* panic in its third replace_neighbor: the code returns early for fewer than three leaves
+\* (finding F-C18-2, fixed by cb94cc3).
 SwapLeavesArgs(nodes) ==
-  IF Cardinality(RTLeaves(nodes)) < 2 THEN {}
+  IF Cardinality(RTLeaves(nodes)) < 3 THEN {}
   ELSE {a \in RTLeaves(nodes) \X RTLeaves(nodes) : a[1] # a[2]}
 SwapLeaves(nodes, ranks, l1, l2) ==
   LET p1 == nodes[l1].nhd[1]
@@ -260,7 +263,7 @@ AnnealStep(gr, a, adaptive, r, coin) ==
                     bests |-> IF score < a.bests THEN score ELSE a.bests,
                     panic |-> FALSE]
        IN IF score < a.olds THEN kept
-          ELSE IF adaptive /\ a.bests = 0 /\ score = 0 THEN [a EXCEPT !.panic = TRUE]
+          \* adaptive cooling divides by the best score only when it is positive (finding F-C18-1, fixed by c3ef207)
           ELSE IF coin THEN kept ELSE a
 \* the tree run() would return now is valid, no wider than the starting tree, and the width the
 \* annealer believes it has is its width
